@@ -211,12 +211,15 @@ func body(s *simrt.Sim, tier string) {
 			}
 		})
 	}
+	// every Close call, also one overlapping another, returns only when nothing more will be sent
 	doClose := func() {
-		closeInvoke.Store(s.Stamp())
+		if closeInvoke.Load() == 0 {
+			closeInvoke.Store(s.Stamp())
+		}
 		s.Logf("close")
 		b.Close()
+		closeReturn.CompareAndSwap(0, s.Stamp())
 		s.Yield("close.ret")
-		closeReturn.Store(s.Stamp())
 	}
 	if closeRace {
 		workNames = append(workNames, "closer")
@@ -327,7 +330,8 @@ func body(s *simrt.Sim, tier string) {
 	if !closeRace {
 		s.Go("closer", doClose)
 	}
-	if !s.Join(time.Hour, "closer") {
+	s.Go("closer2", doClose)
+	if !s.Join(time.Hour, "closer", "closer2") {
 		s.Fail("close-wedged", "Close did not return although no subscriber is stalled any more\n"+s.Dump())
 		return
 	}
